@@ -59,6 +59,40 @@ struct PathFNode<StorageT> {
     cf: u16,
 }
 
+impl<StorageT> Drop for PathFNode<StorageT> {
+    /// A node that many other nodes were merged into holds a chain of as many alternative repair
+    /// sequences (and those can themselves contain merges). `Cactus` frees a chain recursively, one
+    /// stack frame per element, so dropping such a node could overflow the stack: take the chains
+    /// apart iteratively instead. Nodes that are still shared are left to their other owners.
+    fn drop(&mut self) {
+        let mut todo = vec![std::mem::replace(&mut self.repairs, Cactus::new())];
+        while let Some(mut c) = todo.pop() {
+            loop {
+                let parent = c.parent();
+                match c.try_unwrap() {
+                    Ok(RepairMerge::Merge(_, mut alts)) => loop {
+                        let alts_parent = alts.parent();
+                        match alts.try_unwrap() {
+                            Ok(alt) => todo.push(alt),
+                            Err(_) => break,
+                        }
+                        match alts_parent {
+                            Some(p) => alts = p,
+                            None => break,
+                        }
+                    },
+                    Ok(_) => (),
+                    Err(_) => break,
+                }
+                match parent {
+                    Some(p) => c = p,
+                    None => break,
+                }
+            }
+        }
+    }
+}
+
 impl<StorageT: PrimInt + Unsigned> PathFNode<StorageT> {
     fn last_repair(&self) -> Option<Repair<StorageT>> {
         match *self.repairs.val().unwrap() {
@@ -224,18 +258,19 @@ where
                 self.shift(n, nbrs);
                 true
             },
-            |old, new| {
+            |old, mut new| {
                 // merge new_n into old_n
 
                 if old.repairs == new.repairs {
                     // If the repair sequences are identical, then merging is pointless.
                     return;
                 }
+                let new_repairs = std::mem::replace(&mut new.repairs, Cactus::new());
                 let merge = match *old.repairs.val().unwrap() {
                     RepairMerge::Repair(r) => {
-                        RepairMerge::Merge(r, Cactus::new().child(new.repairs))
+                        RepairMerge::Merge(r, Cactus::new().child(new_repairs))
                     }
-                    RepairMerge::Merge(r, ref v) => RepairMerge::Merge(r, v.child(new.repairs)),
+                    RepairMerge::Merge(r, ref v) => RepairMerge::Merge(r, v.child(new_repairs)),
                     _ => unreachable!(),
                 };
                 old.repairs = old.repairs.parent().unwrap().child(merge);
